@@ -70,17 +70,7 @@ impl<'a> LexiconSet<'a> {
 //@end
 //@extract sudachi/src/dic/lexicon_set.rs :: impl<'a> LexiconSet<'a> :: fn append
 //@  ret r
-//@  spec
-        requires ids_ok(*old(self)),
-        ensures
-            // a 15th user dictionary (16th lexicon) is rejected; otherwise the new lexicon gets the next number
-            r is Err <==> old(self).lexicons@.len() >= 15,
-            r is Err ==> final(self).lexicons@ == old(self).lexicons@ && final(self).pos_offsets@ == old(self).pos_offsets@,
-            r is Ok ==> final(self).lexicons@.len() == old(self).lexicons@.len() + 1
-                && final(self).lexicons@.subrange(0, old(self).lexicons@.len() as int) == old(self).lexicons@
-                && final(self).lexicons@.last().lex_id == old(self).lexicons@.len()
-                && final(self).pos_offsets@ == old(self).pos_offsets@.push(pos_offset),
-            final(self).num_system_pos == old(self).num_system_pos, ids_ok(*final(self)),
+//@  specfile specs/lset_append.contract
 //@  atend
         proof {
             assert(self.lexicons@.subrange(0, old(self).lexicons@.len() as int) =~= old(self).lexicons@);
